@@ -289,6 +289,13 @@ theorem armor_injective (p q : Bytes) (h : armor p = armor q) : p = q := by
   have h4 : (Result.read p none) = .read q none := h1.symm.trans (h3.trans h2)
   injection h4
 
+/-- For the streaming encoder: two sequences of `Write` calls that produce the same document wrote the same
+bytes in total (only the chunking may differ). -/
+theorem encoder_writes_unambiguous (a b : List Bytes) (h : encodeChunks a = encodeChunks b) :
+    a.flatten = b.flatten := by
+  rw [encode_chunking_independent, encode_chunking_independent] at h
+  exact armor_injective _ _ h
+
 /-- **Re-separation with ASCII whitespace.**  Take the words of the armor of `p` (or any other split of
 `'0'` + base64(`p`) into non-empty words) and write them into `pre` elements with *any* runs of
 `\t \n \f \r space` before, between and after them (between two words at least one), any harmless bytes
